@@ -316,6 +316,21 @@ def t1_literal_forms(ctx: Ctx):
               'int -> exact rational literal', f'got {r[1]!r}')
     r = run({'val': Inst('str')})
     ctx.check(r[0] == 'return' and r[1] is None, FOLD, r[2] or fn, q, 'anything else has no literal form', f'got {r[1]!r}')
+    # native numbers (captured Python values): the literal denotes the same value, the sign of a zero included
+    import math
+    from fractions import Fraction
+    from ..minipy import Interp
+    overrides = {'math.isfinite': math.isfinite, 'math.copysign': math.copysign, 'Fraction': Fraction,
+                 '_rational_literal': lambda v, loc: ('rational', v), 'Decnum': lambda text, loc: ('decnum', text), 'BoolVal': lambda v, loc: ('bool', v)}
+    bad = None
+    for v, want in ((-0.0, ('decnum', '-0.0')), (0.0, ('rational', Fraction(0))), (2.5, ('rational', Fraction(5, 2))), (-3, ('rational', Fraction(-3))),
+                    (math.inf, None), (math.nan, None), (True, ('bool', True))):
+        got = Interp({}, overrides=overrides).call_function(fn, [v, None])
+        same = got == want or (isinstance(got, tuple) and isinstance(want, tuple) and got[0] == 'decnum' and str(got[1]).startswith('-0') and str(want[1]).startswith('-0'))
+        if not same and bad is None:
+            bad = f'value_to_literal({v!r}) = {got}, expected {want}'
+    ctx.check(bad is None, FOLD, fn, q, 'native int / float / bool: exact rational literal, a signed literal for -0.0, none for inf / NaN',
+              (bad or '') + ': `close(f)` of a function capturing -0.0 would bind +0')
     rl = ctx.fn(FOLD, '_rational_literal')
     r = decide(repo, FOLD, rl.body, {'val.denominator == 1': True})
     ctx.check(r[0] == 'return' and isinstance(r[1], Opaque) and norm(r[1].node) == 'Integer(int(val), loc)', FOLD, r[2] or rl, '_rational_literal', 'integral -> Integer', f'got {r[1]!r}')
